@@ -191,8 +191,8 @@ impl Prop for C05 {
   }
   fn legs(&self, _tier: Tier) -> Vec<Leg<Case>> {
     vec![
-      Leg { name: "histories", source: Cases::Generated(Box::new(strategy), 100_000, 3_000_000) },
-      Leg { name: "long histories (>20 replacements, colliding keys)", source: Cases::Generated(Box::new(strategy_long), 20_000, 500_000) },
+      Leg { name: "histories", source: Cases::Generated(Box::new(strategy), 500_000, 6_000_000) },
+      Leg { name: "long histories (>20 replacements, colliding keys)", source: Cases::Generated(Box::new(strategy_long), 100_000, 1_500_000) },
     ]
   }
   fn check(&self, case: &Case) -> CheckResult {
